@@ -48,6 +48,9 @@ def inputs():
                                         "tasks": [T(f"d{i}", 480, **({"deps": [f"d{i - 1}"]} if i else {})) for i in range(9)]}).encode(),
         "year-end-2026": render.render({"start": "2026-12-28", "dur": "3w", "resources": [{"id": "r1", "hours": [("mon - sun", ["9:00 - 17:00"])]}],
                                         "tasks": [{"id": "g", "children": [T(f"d{i}", 480, **({"deps": [f"!d{i - 1}"]} if i else {})) for i in range(8)]}]}).encode(),
+        # eleven tasks (two-digit positions), one of them a container: rows must stay in declaration order
+        "eleven": render.render({"resources": R, "tasks": [T(f"t{i:02d}", 30 + 10 * i, "r1" if i % 2 else "r2") for i in range(1, 10)]
+                                 + [{"id": "grp", "children": [T("x", 40), T("y", 20, "r2")]}]}).encode(),
         "utf8": render.render({"resources": [{"id": "r1", "name": "Zoë Müller"}], "tasks": [T("a", 90, name="Grüße – 設計"), T("b", 30, deps=["a"], name="naïve")]}).encode("utf-8"),
     }
     return out
